@@ -13,6 +13,7 @@ import re
 from pexpect import EOF, TIMEOUT
 
 from ..core.watchdog import watchdog, CaseTimeout
+from ..core.acc import confirmed
 from ..monitors.expect_oracles import short
 from ..workloads.puppetctl import PeerError
 from ..workloads.transports import Link
@@ -164,11 +165,13 @@ def run(spec, acc, prefix='real-transport'):
         cases = (gen_case(rng) for _ in range(spec['n']))
     for case in cases:
         try:
-            with watchdog(60):
-                one(case, acc, prefix)
+            with watchdog(180):
+                # (the calls of these histories have wall-clock timeouts of their own: on an overloaded machine one
+                # of them may expire although nothing is wrong - a violation counts when it reproduces serially)
+                confirmed(case, lambda c, a: one(c, a, prefix), acc, retries=1)
         except PeerError as e:
             acc.inconc('peer: %s' % e)
         except CaseTimeout as e:
-            acc.violation(prefix + ':call-does-not-return', 'history did not finish within 60 s (%s)' % (e,), case)
+            acc.violation(prefix + ':call-does-not-return', 'history did not finish within 180 s, two attempts (%s)' % (e,), case)
         if acc.too_many():
             break
